@@ -17,8 +17,18 @@ SWALLOW = {"ok", "is_ok", "is_err", "err", "unwrap_or", "unwrap_or_default", "un
 PANICKY = {"unwrap", "expect"}
 
 
+_ERR_FILTER = [None]
+
+
 def is_err_result(t):
-    return isinstance(t, tuple) and t[0] == "adt" and t[1] == RESULT and len(t[2]) >= 2 and isinstance(t[2][1], tuple) and t[2][1][0] == "adt" and t[2][1][1] in ERR_TYPES
+    ok = isinstance(t, tuple) and t[0] == "adt" and t[1] == RESULT and len(t[2]) >= 2 and isinstance(t[2][1], tuple) and t[2][1][0] == "adt" and t[2][1][1] in ERR_TYPES
+    if ok and _ERR_FILTER[0] is not None:
+        return t[2][1][1] in _ERR_FILTER[0]
+    return ok
+
+
+SER_ERRS = ("epserde::ser::Error", "std::io::error::Error", "anyhow::Error", "mmap_rs::error::Error")
+DESER_ERRS = ("epserde::deser::Error", "std::io::error::Error", "anyhow::Error", "mmap_rs::error::Error")
 
 
 def walk(crate, e, parent, sites, ctx):
@@ -142,7 +152,15 @@ def in_scope(b, scope_files):
     return any(s in f for s in scope_files)
 
 
-def rule_PERR(u, rep, scope_files, crate="epserde", exclude_fn=None, only_callees=None):
+def rule_PERR(u, rep, scope_files, crate="epserde", exclude_fn=None, only_callees=None, errs=None):
+    _ERR_FILTER[0] = errs
+    try:
+        return _rule_PERR(u, rep, scope_files, crate, exclude_fn, only_callees)
+    finally:
+        _ERR_FILTER[0] = None
+
+
+def _rule_PERR(u, rep, scope_files, crate="epserde", exclude_fn=None, only_callees=None):
     n = 0
     for b in u.bodies.values():
         if b.thir is None or b.d.get("krate") != crate:
@@ -259,13 +277,37 @@ def _succs(t):
     return out
 
 
-def rule_err_drop(u, rep, scope_files, crate="epserde", rule="ERR-DROP"):
+def takes_slice_cursor(b):
+    """the function works on the in-memory cursor of the eps reader (no stream, no fragmentation)"""
+    def has(t, depth=0):
+        if not isinstance(t, tuple) or depth > 6:
+            return False
+        if t and t[0] == "adt" and isinstance(t[1], str) and t[1].endswith("::SliceWithPos"):
+            return True
+        return any(has(x, depth + 1) for x in t if isinstance(x, tuple))
+    try:
+        return any(has(b.crate.ty(x)) for x in (b.inputs or []))
+    except Exception:
+        return False
+
+
+def rule_err_drop(u, rep, scope_files, crate="epserde", rule="ERR-DROP", errs=None, exclude_fn=None):
+    _ERR_FILTER[0] = errs
+    try:
+        return _rule_err_drop(u, rep, scope_files, crate, rule, exclude_fn)
+    finally:
+        _ERR_FILTER[0] = None
+
+
+def _rule_err_drop(u, rep, scope_files, crate="epserde", rule="ERR-DROP", exclude_fn=None):
     """Post-drop-elaboration MIR: no value of type Result<_, E> (E one of the crate's error types) that was produced by a
     call or assignment reaches a Drop of its local (scope end or overwrite) on a normal path without having been read
     (moved, matched, borrowed) in between: a Result that is dropped is an error that nobody saw."""
     nb = nl = 0
     for b in u.bodies.values():
         if b.mir is None or b.d.get("krate") != crate or not in_scope(b, scope_files):
+            continue
+        if exclude_fn and exclude_fn(b):
             continue
         m = b.mir
         locs = m["locals"]
